@@ -6,30 +6,41 @@ ASSUMPTIONS = ['an atomic load reads from the latest store in the explored (sequ
                'plain accesses are observed through race probes in the payload type (constructors, assignments, destructor)']
 OUTSIDE = ('dispenso code outside the listed kernels; stale reads / reorderings that only a weak-memory execution shows '
            '(the explored interleavings are sequentially consistent); plain accesses other than payload accesses')
-SEQ = {'engine': 'cbmc-seq', 'spin_loops': True, 'rt_defs': {'VF_RACE': 1}, 'timeout': 1500}
+SEQ = {'engine': 'cbmc-seq', 'spin_loops': True, 'timeout': 1500}
+
+
+def RT(atoms, probes, **kw):
+    # sizes of the detector's tables (powers of two; a full table is an rt: failure, never silent)
+    d = {'VF_RACE': 1, 'VF_RACE_ATOMS': atoms, 'VF_RACE_PROBES': probes}
+    d.update(kw)
+    return d
+
+
 INSTANCES = [
-    dict(SEQ, name='spsc', src='spsc_race.cpp', nthreads=2, steps=3, unwind=3,
+    dict(SEQ, name='spsc', src='spsc_race.cpp', rt_defs=RT(2, 2), nthreads=2, steps=3, unwind=3,
          bounds='SPSCRingBuffer<probe,1> (2 slots): producer 3 emplaces, consumer 2 pops, drain by main; 3 rounds'),
-    dict(SEQ, name='async', src='async_race.cpp', nthreads=2, steps=3, unwind=2,
+    dict(SEQ, name='async', src='async_race.cpp', rt_defs=RT(1, 4), nthreads=2, steps=3, unwind=2,
          bounds='AsyncRequest<probe>: producer 2x tryEmplaceUpdate; main request/get/request/get (+ final get); 3 rounds'),
-    dict(SEQ, name='async_c2', src='async_race.cpp', defs={'VF_CONSUMERS': 2}, nthreads=3, steps=3, unwind=2,
+    dict(SEQ, name='async_c2', src='async_race.cpp', rt_defs=RT(1, 4), defs={'VF_CONSUMERS': 2}, nthreads=3, steps=3, unwind=2,
          bounds='AsyncRequest<probe>: producer 2x tryEmplaceUpdate; two consumers (main: request+get, T2: request+get); 3 rounds'),
-    dict(SEQ, name='event', src='event_race.cpp', defs={'VF_KIND': 0}, nthreads=3, steps=3, unwind=2,
+    dict(SEQ, name='event', src='event_race.cpp', rt_defs=RT(1, 1), defs={'VF_KIND': 0}, nthreads=3, steps=3, unwind=2,
          bounds='CompletionEventImpl: writer plain store + notify(1); two readers wait(1) + plain read; 3 rounds'),
-    dict(SEQ, name='latch', src='event_race.cpp', defs={'VF_KIND': 1}, nthreads=3, steps=3, unwind=2,
+    dict(SEQ, name='latch', src='event_race.cpp', rt_defs=RT(1, 2), defs={'VF_KIND': 1}, nthreads=3, steps=3, unwind=2,
          bounds='Latch(2): two writers plain store + count_down(); main wait() + plain reads; 3 rounds'),
-    dict(SEQ, name='latch_aw', src='event_race.cpp', defs={'VF_KIND': 2}, nthreads=2, steps=3, unwind=2,
+    dict(SEQ, name='latch_aw', src='event_race.cpp', rt_defs=RT(1, 2), defs={'VF_KIND': 2}, nthreads=2, steps=3, unwind=2,
          bounds='Latch(2): two threads plain store + arrive_and_wait() + read of the peer value; 3 rounds'),
-    dict(SEQ, name='rwlock', src='rwlock_race.cpp', defs={'VF_KIND': 0}, nthreads=3, steps=3, unwind=2,
+    dict(SEQ, name='rwlock', src='rwlock_race.cpp', rt_defs=RT(1, 1), defs={'VF_KIND': 0}, nthreads=3, steps=3, unwind=2,
          bounds='RWLock: T1 lock/write/unlock, T2 lock_shared/read/unlock_shared, main try_lock_shared/read; 3 rounds'),
-    dict(SEQ, name='rwlock_try', src='rwlock_race.cpp', defs={'VF_KIND': 1}, nthreads=3, steps=3, unwind=2,
+    dict(SEQ, name='rwlock_try', src='rwlock_race.cpp', rt_defs=RT(1, 1), defs={'VF_KIND': 1}, nthreads=3, steps=3, unwind=2,
          bounds='RWLock: T1 try_lock/write/unlock, T2 lock_shared/read/unlock_shared, main lock/write/unlock; 3 rounds'),
-    dict(SEQ, name='rwlock_updown', src='rwlock_race.cpp', defs={'VF_KIND': 2}, nthreads=3, steps=3, unwind=2,
+    dict(SEQ, name='rwlock_updown', src='rwlock_race.cpp', rt_defs=RT(1, 1), defs={'VF_KIND': 2}, nthreads=3, steps=3, unwind=2,
          bounds='RWLock: main lock_shared/read/lock_upgrade/write/lock_downgrade/read/unlock_shared, T1 try_lock_shared, T2 lock_shared; 3 rounds'),
-    dict(SEQ, name='chaselev', src='chaselev_race.cpp', defs={'VF_KIND': 0, 'VF_CAP': 2}, nthreads=3, steps=3, unwind=2,
+    dict(SEQ, name='chaselev', src='chaselev_race.cpp', rt_defs=RT(2, 2), defs={'VF_KIND': 0, 'VF_CAP': 2}, nthreads=3, steps=3, unwind=2,
          bounds='ChaseLevDeque<probe,2>, no wrap-around: owner push,push,pop,(join),pop; two stealers one try_steal each; 3 rounds'),
-    dict(SEQ, name='chaselev_wrap', src='chaselev_race.cpp', defs={'VF_KIND': 1, 'VF_CAP': 1}, nthreads=2, steps=3, unwind=2,
+    dict(SEQ, name='chaselev_wrap', src='chaselev_race.cpp', rt_defs=RT(2, 1), defs={'VF_KIND': 1, 'VF_CAP': 1}, nthreads=2, steps=3, unwind=2,
          bounds='ChaseLevDeque<probe,1>, slot reuse: owner push,pop,push,(join),pop; one stealer try_steal; 3 rounds'),
-    dict(SEQ, name='mpmc', src='mpmc_race.cpp', nthreads=4, steps=3, unwind=3,
-         bounds='MpmcRingBuffer<probe,2>: producers 2+1 emplaces, consumer 2 pops, drain by main; 3 rounds'),
+    dict(SEQ, name='mpmc_reuse', src='mpmc_race.cpp', defs={'VF_KIND': 0}, rt_defs=RT(4, 2), nthreads=2, steps=3, unwind=3,
+         bounds='MpmcRingBuffer<probe,2>: producer 3 emplaces (slot 0 reused), main 2 pops + drain; 3 rounds'),
+    dict(SEQ, name='mpmc_2p', src='mpmc_race.cpp', defs={'VF_KIND': 1}, rt_defs=RT(4, 2), nthreads=4, steps=3, unwind=3,
+         bounds='MpmcRingBuffer<probe,2>: two producers 1 emplace each, consumer 2 pops, drain by main; 3 rounds'),
 ]
